@@ -355,3 +355,29 @@ def check_C19(res, replay):
                     "bond tables of real molecules (library incl. rings, aromatic, triple bonds, metal complexes; alkanes to C8; generated molecules up to 36 atoms) built through the wrapper "
                     "(set_bond_orders then build_3d) 2 (quick) / 6 (thorough) times each with the builder's own random placements: bonds/atoms/derived connectivity before vs after and against "
                     "the model; bond-length deviation, smallest distance and finiteness of every result")
+
+
+# ---------------------------------------------------------------------------------------------------- C06
+
+def check_C06(res, replay):
+    res.trusted = TB_COMMON + ["construction model of C11 (bit-exact term-list correspondence)", "Mathlib (regularity of the bend expressions)",
+                               "hook UFF::verif_atom_types / verif_terms used to ATTRIBUTE failures to a signature (type name, environment, bend kind, collinear?)",
+                               "axioms audited: subset of {propext, Classical.choice, Quot.sound}"]
+    res.assumptions = ["PARTIAL: proved are the totality of the construction decisions (no todo!() arm is reachable, every rest-length lookup of a bend succeeds, every table row carries an element "
+                       "symbol), the bends' singular set over the reals, and the enumeration of table rows with natural angle pi; the verdict 'no abort, no NaN/inf, no overflow-scale energy' "
+                       "is a floating-point/panic property and is EXPLORED on the real code, every failure attributed to a signature",
+                       "failures matching a signature in known_findings.json are reported as KNOWN-FINDING; any other signature is a VIOLATION"]
+    L.run_translators(["tables", "terms", "uff"], res)
+    L.prove(["OptRs.Props.C06"], res, BUILD_AUDIT + ["OptRs.Lemmas.GradBends", "OptRs.Model.GenTypes"])
+    if L.build_harness(res) and L.build_model(res):
+        for stream, model, io in (("build", "build", True), ("robust", "-", False)):
+            lines = harness_lines(stream, [], res)
+            if lines is not None:
+                L.compare_lines(lines, model, res, stream, ignore_oracle=io)
+        res.cases += int(res.stats.get("robust.inputs", "0"))
+        res.distinct += int(res.stats.get("robust.force_fields_fully_exercised", "0"))
+    return L.finish(res, "proof", "lake build OptRs.Props.C06 + #print axioms audit",
+                    "inputs with pairwise distances >= 0.5 A: library; every element Z=1..118 as isolated atom, as diatomic with H/C/O/Cl, and as a centre with 1-6 H ligands in exactly linear / "
+                    "bent / trigonal / pyramidal / tetrahedral / square-planar / trigonal-bipyramidal / octahedral arrangements — axis-aligned, randomly rotated+translated and distorted (a "
+                    "fraction per run in quick, all in thorough); linear triatomics and polyynes on an axis and rotated; planar 3-8 rings; random molecules, distorted, united fragments. Each: "
+                    "build UFF and RB, energy, gradient, optimise under catch_unwind; fail on panic, non-finite values or |E| > 1e6 kcal/mol per atom")
